@@ -1042,7 +1042,10 @@ class Interp:
         return "<fstring>"
 
     def ex_Tuple(self, e, env):
-        return tuple(self._eval_elts(e.elts, env, "tuple"))
+        r = self._eval_elts(e.elts, env, "tuple")
+        if isinstance(r, (SymSeq, SymList)):
+            return r
+        return tuple(r)
 
     def ex_List(self, e, env):
         r = self._eval_elts(e.elts, env, "list")
